@@ -93,6 +93,11 @@ def gen_book(rng, t, kind=None, big=False, sane=False):
             entries = q ** dim
     else:
         entries = rng.choice([1, 2, 3, 4, 7, 8, 16, 31, 64]) if not big else rng.choice([300, 1000, 5000])
+    if maptype and not sane and not big and rng.random() < 0.07:
+        # a vector far wider than any partition (legal: nothing relates a book's dimension to the residue's partition size or the block
+        # size): every bound on "how many scalars of this codeword still fit" in the vector decoders is exercised
+        dim = rng.choice([16, 33, 64, 255, 1000, 4096])
+        entries = rng.choice([1, 2, 3]) if maptype == 1 else rng.choice([1, 2])
     sparse = rng.random() < 0.3 and entries > 2
     ordered = (not sparse) and rng.random() < 0.3
     used = entries if not sparse else rng.randint(1, entries)
